@@ -81,7 +81,7 @@ class RegionGraphLayer(abc.ABC, nn.Module):
 
         # Remove the padding, if required
         if self.pad > 0:
-            samples = samples[self.inv_pad_mask[idx_repetitions]].view(n_samples, self.in_features)
+            samples = samples[~self.inv_pad_mask[idx_repetitions]].view(n_samples, self.in_features)
         return samples
 
     def forward(self, x: torch.Tensor) -> torch.Tensor:
